@@ -5,6 +5,7 @@ from cv import flow, rules
 from cv.rules import events_of
 
 TITLE = "Selecting a subtree returns exactly that subtree"
+TECHNIQUE = 'static analysis: unit rule (byte length vs character index), guard analysis of the subtree filter with operand provenance, identity plumbing of the subtree parameter'
 EXPLANATION = (
     "Decided: (1) UNIT - crate-wide, a byte length (str::len / String::len) is never used as a character index "
     "(Iterator::nth/skip/take on Chars or CharIndices) and a character count is never used as a byte index: for "
